@@ -200,7 +200,8 @@ fn gen(rng: &mut Rng, _i: u64) -> String {
 	let edata_prd: u32 = 0x600;
 	let secs = vec![
 		Sec { name: *b".text\0\0\0", va: TEXT_VA, vs: TEXT_SIZE, prd: 0x400, srd: TEXT_SIZE, chars: 0x6000_0020 },
-		Sec { name: *b".edata\0\0", va: EDATA_VA, vs: total as u32, prd: edata_prd, srd: total as u32, chars: 0x4000_0040 },
+		// VirtualSize below the stored size (0 as old linkers write it, 1, half): a file view serves max(VirtualSize, SizeOfRawData)
+		Sec { name: *b".edata\0\0", va: EDATA_VA, vs: match rng.below(6) { 0 => 0, 1 => 1, 2 => total as u32 / 2, 3 => total as u32 + 0x100, _ => total as u32 }, prd: edata_prd, srd: total as u32, chars: 0x4000_0040 },
 	];
 	let soi: u32 = match rng.below(10) { 0 => 0x1100, 1 => EDATA_VA + total as u32, _ => 0x3000 };
 	let image_base: u64 = match rng.below(8) {
